@@ -20,7 +20,22 @@ def run_spec(spec: dict) -> list[dict]:
         np.random.seed(int(spec["scramble"]))
         np.random.rand(int(spec["scramble"]) % 13 + 1)
         random.random()
+    warm_inner = None
+    if spec.get("reuse_mechanism"):
+        # the sprout mechanism object has already served another tree (a module-level mechanism shared by several runs,
+        # an hms() loop): a short warm-up run with the same configuration and another seed, whose mechanism is kept
+        import copy as _copy
+        from pyhms.tree import DemeTree as _DT
+        warm = _copy.deepcopy({k: v for k, v in spec.items() if k not in ("reuse_mechanism", "reports", "dump_at", "look", "drive")})
+        warm.update(seed=int(spec.get("seed", 1)) + 7919, gsc={"kind": "MetaepochLimit", "n": 4}, max_consults=3000)
+        wcfg, wrec = build(warm)
+        wtree = _DT(wcfg)
+        wrec.tree = wtree
+        wtree.run()
+        warm_inner = wcfg.sprout_mechanism.inner
     cfg, rec = build(spec)
+    if warm_inner is not None:
+        cfg.sprout_mechanism.inner = warm_inner
     rec.look = spec.get("look")
     if rec.look is not None:
         return run_look(spec, cfg, rec)
